@@ -27,6 +27,31 @@ CLAIMS = {
              "Spurious flags are measured, not required. Unverified: the code generator's use of the helpers beyond the L3 catalogue "
              "(ConsolidateOverflowCheck); unary minus and / are decided by the L3 units (see known findings).",
         ref="4 C04"),
+    "C16": dict(
+        text="Proof for all Py_ssize_t arguments that __pyx_memoryview_slice_memviewslice (the one-dimension index/slice normaliser "
+             "behind both a[i:j:k] on typed memoryviews and memoryview.__getitem__), taken from the C the working-tree compiler "
+             "generates, yields exactly CPython's slice.indices()/len(range()) extent, stride*step, the adjusted start offset, "
+             "IndexError for out-of-range indices and ValueError for a zero step, leaving *dst untouched on errors. Kernel: this "
+             "function only, direct (non-indirect) dimensions.",
+        note="Trusted: dv C front end + clang typing, z3, the slice.indices transcription (validated natively each run), CPython API "
+             "stubs for the error path. Unverified: _unellipsify, the per-dimension driver loop, compile-time generate_buffer_slice_code, "
+             "PIL-style indirect dimensions. Value obligations assume absence of UB, which is reported under C36.",
+        ref="4 C16"),
+    "C36": dict(
+        text="Proof of the UB-freedom obligations (signed overflow, division by zero and MIN/-1, shift count/negative shift, out-of-bounds "
+             "access of contract-described buffers, uninitialised reads, helper preconditions at call sites) of every C function under "
+             "contract in the other checks: CMath Div/Mod helpers, all of Overflow.c in both preprocessor configurations, the L3 division "
+             "catalogue, the memoryview slice normaliser. For all inputs satisfying the call-site preconditions - strictly stronger than a "
+             "sanitizer run on those functions, silent about everything else.",
+        note="Trusted: as the individual checks. Known finding (recorded, witness replayed under a UBSan trap build each run): stride*step "
+             "overflow in the memoryview slice normaliser. Unverified: all generated code outside the catalogue; refcount/lifetime errors.",
+        ref="4 C36"),
+    "C39": dict(
+        text="The same contract is proved for each preprocessor/instantiation configuration that selects a different branch of a helper: "
+             "Overflow.c with and without __builtin_*_overflow, b_is_constant 0/1 in Div/Mod, every C integer type of the instantiation "
+             "matrix. Configuration independence for exactly these helpers (kernel).",
+        note="Trusted: as C03/C04. Unverified: optimisation levels, Limited API, CYTHON_* feature macros outside the helpers under contract.",
+        ref="4 C39"),
     "C38": dict(
         text="Proof for ALL integers (unbounded) that the interpreted fallbacks Shadow.cdiv / Shadow.cmod compute C truncating division "
              "and remainder - the same spec functions the compiled cdivision code is proved against in C03 - and raise ZeroDivisionError "
